@@ -1,4 +1,5 @@
 SPECIFICATION Spec
+CONSTANT Answer <- TableAnswer
 INVARIANT LoopDoc
 INVARIANT NestDoc
 INVARIANT JumpDoc
